@@ -2,7 +2,7 @@ SPECIFICATION Spec
 CONSTANTS
   Cases <- MCCasesQ
   MACases <- MCMACasesQ
-  Variant = "ok"
+  Variant = "normhigh"
 INVARIANT LeadingBatch
 INVARIANT OneHotDef
 INVARIANT MultiOneHotDef
